@@ -182,6 +182,32 @@ def r18_2_3(run):
         resets = [a for a in ast.walk(lp) if isinstance(a, ast.Assign) and assign_to(a, SE) is not None and is_none(assign_to(a, SE))]
         run.ob('R18.3', u, lp, 'a usable existing listener, once found, is kept (never reset inside the candidate loop)', not resets, slot='no-reset-in-loop',
                message='the candidate loop resets the chosen endpoint to None (e.g. when a later entry cannot be parsed): a usable listener is discarded and Tor is reconfigured')
+        # every existing listener is a candidate: the iterable is the list of existing ports or the concatenation of
+        # all groups it was split into; an `or` / conditional between groups drops a whole group
+        defs = local_defs(u)
+        it = lp.iter
+        sel = [x for x in ast.walk(it) if isinstance(x, (ast.BoolOp, ast.IfExp))]
+        mentioned = set(x.id for x in ast.walk(it) if isinstance(x, ast.Name))
+        for nm in list(mentioned):
+            d = single_def(defs, nm)
+            if d is not None and d[0] == 'expr':
+                sel += [x for x in ast.walk(d[1]) if isinstance(x, (ast.BoolOp, ast.IfExp)) and not any(isinstance(c, ast.comprehension) and any(x is y for i_ in c.ifs for y in ast.walk(i_))
+                                                                                                    for c in ast.walk(d[1]))]
+                mentioned |= set(x.id for x in ast.walk(d[1]) if isinstance(x, ast.Name))
+        groups = set()
+        for nm, dl in defs.items():
+            for d in dl:
+                if d[0] != 'expr':
+                    continue
+                v = d[1]
+                inner = v.args[0] if isinstance(v, ast.Call) and dotted(v.func) in ('set', 'list', 'sorted', 'frozenset', 'tuple') and v.args else v
+                if (isinstance(inner, (ast.ListComp, ast.SetComp, ast.GeneratorExp)) and any(c.ifs for c in inner.generators)) or \
+                        (isinstance(v, ast.BinOp) and isinstance(v.op, ast.Sub) and any(isinstance(x, ast.Call) and dotted(x.func) == 'set' for x in ast.walk(v))):
+                    groups.add(nm)
+        full = not sel and (groups <= mentioned or not groups)
+        run.ob('R18.3', u, lp, 'every existing SOCKS listener is a candidate', full, slot='all-candidates',
+               message='the candidate loop iterates %s: %s, so a usable existing listener can be skipped and Tor re-configured'
+               % (src(it)[:60], 'it chooses between groups with %s' % src(sel[0])[:40] if sel else 'group(s) %s left out' % sorted(groups - mentioned)))
         tv = lp.target.id
         tests = [t for t in ast.walk(lp) if isinstance(t, ast.Compare) and dotted(t.left) == tv and dotted(t.comparators[0]) == 'socks_config']
         ok = bool(tests) and all(isinstance(t.ops[0], (ast.NotEq, ast.Eq)) for t in tests)
@@ -291,6 +317,8 @@ RULES = [
 from ..selftest import M  # noqa: E402
 F, FC = 'txtorcon/endpoints.py', 'txtorcon/torconfig.py'
 MUTANTS = [
+    M('unix-or-tcp', F, "    for p in list(unix_ports) + list(tcp_ports):  # prefer unix-ports", "    for p in sorted(unix_ports) or sorted(tcp_ports):", ['R18.3']),
+    M('tcp-group-left-out', F, "    for p in list(unix_ports) + list(tcp_ports):  # prefer unix-ports", "    for p in list(unix_ports):", ['R18.3']),
     M('setconf-not-awaited', F, "        yield control_protocol.set_conf(*args)", "        control_protocol.set_conf(*args)", ['R18.6']),
     M('relist-stripped', F, "        for p in socks_lines:\n            args.append('SOCKSPort')", "        for p in socks_ports + [socks_config]:\n            args.append('SOCKSPort')", ['R18.1']),
     M('relist-only-new', F, "        for p in socks_lines:\n            args.append('SOCKSPort')", "        for p in [socks_config]:\n            args.append('SOCKSPort')", ['R18.1']),
@@ -305,6 +333,7 @@ MUTANTS = [
     M('create-substring', FC, "            wanted = socks_config.split()[0]\n            if not any([port.split()[0] == wanted for port in self.SocksPort]):", "            if not any([socks_config in port for port in self.SocksPort]):", ['R18.5']),
 ]
 TWINS = [
+    M('candidates-all-ports', F, "    for p in list(unix_ports) + list(tcp_ports):  # prefer unix-ports", "    for p in sorted(unix_ports) + sorted(tcp_ports):"),
     M('relist-copy', F, "    socks_lines = list(socks_ports)  # as reported, for re-listing below", "    socks_lines = [line for line in socks_ports]"),
     M('extend-args', F, "        for p in socks_lines:\n            args.append('SOCKSPort')\n            args.append(p)", "        for line in socks_lines:\n            args.append('SOCKSPort')\n            args.append(line)"),
 ]
